@@ -502,3 +502,8 @@ MUTANTS = [
 
     return valid_file;""", 'expect': None},
 ]
+
+
+# SESSION7 additions to the claim (clauses added in DESIGN section 12)
+CLAIM['technique'] += '; read-hashed typestate (every count read from a chunk reaches the chunk hash before the verdict); semantic count-up/count-down chunk loop (linear values, Fourier-Motzkin); static inventory restricted to the scan'
+CLAIM['text'] += ' C09-h: no path of the scan classifies a chunk whose bytes were read but not hashed. C09-i: the scan keeps nothing in static storage.'
